@@ -151,6 +151,27 @@ def run(ctx):
     ctx.ob("R11.12", "left neighbour of a range", not missing, site=A.where(ell[0]), detail={"multi_slot_kinds": sorted(kinds), "distinguished_by_the_scanner": sorted(handled & kinds)},
            key="R11.12:left neighbour",
            what="the scanner picks the left neighbour of a range by slot position without telling apart arguments of kind %s, which occupy several slots: the slot before the range is then the last element of that argument (`[1 1] 3 ... 7` reads as 3 5 7)" % missing)
+    # ---- R11.14: the checker's choice of the left neighbour tells arrays apart (sibling of R11.12)
+    ctx.rule("R11.14", "LOOKBEHIND-KINDS (checker): where the checker looks for the value a range counts on from - the text of the previous argument - it sets an array apart (its first character '[' or its type 'a'); an ellipsis inside the array is not the end of a preceding range, and the scanner (R11.12) does not count on from an array")
+    chk14 = u.function("rtosc_skip_next_printed_arg")
+    llp = [p_ for p_ in u.params(chk14) if "char" in (A.qtype(p_) or "") and "*" in (A.qtype(p_) or "") and any(
+        y.get("kind") == "CallExpr" and A.callee_name(y) == "strstr" and A.ref_id(A.kids(y)[1]) == p_["id"] for y in A.walk(u.body(chk14)))]
+    ctx.require(len(llp) == 1, "R11.14: the checker's cursor to the previous argument (searched for an ellipsis) was not found")
+    blocks14 = [x for x in A.walk(u.body(chk14)) if x.get("kind") == "IfStmt" and A.ref_id(A.kids(x)[0]) == llp[0]["id"]]
+    ctx.require(len(blocks14) == 1, "R11.14: the block guarded by the previous-argument cursor was not found (%d)" % len(blocks14))
+    lits14 = set()
+    for x in A.walk(A.kids(blocks14[0])[1]):
+        if x.get("kind") == "BinaryOperator" and x.get("opcode") in ("==", "!="):
+            for side in A.kids(x):
+                v = A.int_literal(side)
+                if v in (ord("["), ord("a")):
+                    lits14.add(chr(v))
+        if x.get("kind") == "CaseStmt" and A.int_literal(A.kids(x)[0]) in (ord("["), ord("a")):
+            lits14.add(chr(A.int_literal(A.kids(x)[0])))
+    ctx.ob("R11.14", "left neighbour of a range (checker)", bool(lits14), site=A.where(blocks14[0]), detail={"array_markers_compared": sorted(lits14)},
+           key="R11.14:left neighbour",
+           what="the checker takes the text after the first ellipsis of the previous argument as the value a range counts on from, without setting arrays apart: `[1 ... 3] 5 ... 8` is rejected (step 5-3 = 2 does not reach 8) while the scanner reads 5 6 7 8")
+
     # ---- R11.13: out-parameters of the checker, on the IR of every function of the unit
     ctx.rule("R11.13", "OUT-PARAMETER: a local handed to the checker (rtosc_skip_next_printed_arg) as an output that the checker can leave unwritten when it rejects the text is defined before the call, or the call's result is used, or the local is not read afterwards")
     mir = ctx.ir("pretty-format.c")
